@@ -1,7 +1,7 @@
 """C09 - cw4: total and point-in-time member weights always match the true history."""
 from ..prims import is_rmw
 from ..engine import show, OPTION
-from ..idioms import (dispatch, entry_points, loaded_from, nf, walk, acc_chain, loop_elem, cell_delta, field_of, NF,
+from ..idioms import (dispatch, entry_points, loaded_from, nf, walk, acc_chain, loop_elem, cell_delta, field_of, NF, previous_or_zero,
                       update_base)
 from .cw4common import SENDER, BLOCK, HEIGHT, items
 
@@ -30,7 +30,7 @@ def member_write_delta(p, e, item):
         # update(k, h, f) or its unfolding may_load(k) .. save(k, v, h): new minus (previous or 0)
         d = NF()
         d.merge(nf(e.value), 1)
-        d.add_atom(("orzero", e.old), -1)
+        d.merge(previous_or_zero(p, e.old), -1)
         return d, None
     if e.op == "remove":
         # previous value must have been read from the same key at the same version
